@@ -110,11 +110,11 @@ def run(tier, work):
     exs = vlib.run_vdrv(exe, conf, scen, work, tag="run")
     print("RUN %d scenarios in %.1fs" % (len(exs), time.time() - t1))
     ncrash = 0
-    for ex in exs:
-        for sig in vlib.crashed(ex):
+    for ex, sigs, raw in vlib.confirmed_crashes(exe, conf, scen, exs, work):
+        for sig in sigs:
             ncrash += 1
             h = allh[int(ex["id"])]
-            verdict.add(sig, [json.dumps(dict(h, bytes=bytes(h["bytes"]).hex()))], "driver failure on an input stream")
+            verdict.add(sig, [json.dumps(dict(h, bytes=bytes(h["bytes"]).hex()))], "driver failure on an input stream", raw=raw)
     projs = [project(ex, allh[int(ex["id"])]) for ex in exs]
     accepted, nevents, rejects = vlib.validate_executions(SPEC, "TelnetTrace", "TelnetTrace.cfg", projs, work, max_rejects=8)
     for badi, upto in rejects:
